@@ -9,13 +9,12 @@ open Uds Uds.Model Uds.Props.C05
 
 /-- payload of a request of a service with a subfunction: `[sid, subfunction (bit 7 per flag)] ++ data` -/
 theorem payload_with_subfn (req : Request) (svc : Service) (sf : Nat) (hs : req.service = some svc)
-    (hu : svc.useSubfn = true) (hsf : req.subfunction = some sf) (h1 : svc.sid < 256) (h2 : sf < 128) (hr : req.spr = false) :
+    (hu : svc.useSubfn = true) (hsf : req.subfunction = some sf) (h1 : svc.sid < 256) (h2 : sf < 256) (hr : req.spr = false) :
     req.getPayload (some true) = .ok ([UInt8.ofNat svc.sid, UInt8.ofNat (sf ||| 0x80)] ++ req.data.getD []) ∧
     req.getPayload none = .ok ([UInt8.ofNat svc.sid, UInt8.ofNat sf] ++ req.data.getD []) := by
-  have hset : setBit7 sf < 256 := by
-    have : ∀ x : Fin 128, setBit7 x.val < 256 := by decide
-    exact this ⟨sf, h2⟩
-  have h3 : sf < 256 := by omega
+  -- any sub-function byte, bit 7 possibly set already (a caller-built Request): or-ing 0x80 stays inside the byte
+  have hset : setBit7 sf < 256 := by unfold setBit7; exact Nat.or_lt_two_pow (n := 8) (by omega) (by decide)
+  have h3 : sf < 256 := h2
   have hset' : sf ||| 128 < 256 := hset
   simp [Request.getPayload, hs, hu, hsf, packB, h1, hset', h3, hr, pure, Except.pure, bind, Except.bind, setBit7]
 
@@ -23,7 +22,7 @@ theorem payload_with_subfn (req : Request) (svc : Service) (sf : Nat) (hs : req.
     same call sends outside any block, with bit 7 of byte 1 set and nothing else changed; outside, bit 7 is clear -/
 theorem bit7_exactly_in_block (cfg : SendCfg) (st : ClientState) (req : Request) (svc : Service) (sf : Nat)
     (arr : List Frame) (hs : req.service = some svc) (hu : svc.useSubfn = true) (hsf : req.subfunction = some sf)
-    (h1 : svc.sid < 256) (h2 : sf < 128) (hr : req.spr = false) (hovr : st.override = none) (w : Bool) :
+    (h1 : svc.sid < 256) (h2 : sf < 256) (hr : req.spr = false) (hovr : st.override = none) (w : Bool) :
     (∃ rest, (sendRequest cfg { st with spr := ⟨true, w⟩ } req none arr).log =
         .flush :: .send ([UInt8.ofNat svc.sid, UInt8.ofNat (sf ||| 0x80)] ++ req.data.getD []) :: rest) ∧
     (∃ rest, (sendRequest cfg { st with spr := ⟨false, w⟩ } req none arr).log =
@@ -40,7 +39,7 @@ theorem bit7_exactly_in_block (cfg : SendCfg) (st : ClientState) (req : Request)
 /-- with `payload_override` nested inside the block the modifier receives the payload *after* bit 7 was set -/
 theorem override_sees_bit7 (cfg : SendCfg) (st : ClientState) (req : Request) (svc : Service) (sf : Nat)
     (arr : List Frame) (hs : req.service = some svc) (hu : svc.useSubfn = true) (hsf : req.subfunction = some sf)
-    (h1 : svc.sid < 256) (h2 : sf < 128) (hr : req.spr = false) (m : Modifier) (w : Bool) :
+    (h1 : svc.sid < 256) (h2 : sf < 256) (hr : req.spr = false) (m : Modifier) (w : Bool) :
     ∃ rest, (sendRequest cfg { st with spr := ⟨true, w⟩, override := some m } req none arr).log =
         .flush :: .send (m.apply ([UInt8.ofNat svc.sid, UInt8.ofNat (sf ||| 0x80)] ++ req.data.getD [])) :: rest := by
   obtain ⟨p1, _⟩ := payload_with_subfn req svc sf hs hu hsf h1 h2 hr
